@@ -1,4 +1,4 @@
-(* C11 - stacks (static/wfstack.h, static/lfstack.h): the memory chain from the head spells the abstract LIFO stack in every reachable state, for every schedule
+(* C11 - stacks (static/wfstack.h, static/lfstack.h): the memory chain from the head spells the abstract LIFO stack in every reachable state, for every schedule; lfstack: LIFO chain invariant under the pop mutex with node reuse
    Property theorems only: each is the full statement, closed by `exact`, followed by Print Assumptions. *)
 Require Import Coq.Lists.List.
 Require Import Coq.NArith.NArith.
@@ -7,13 +7,16 @@ Require Import Urcu.Wfs.Wfs.
 Require Import Urcu.Wfs.WfsProof.
 Require Import Urcu.Wfs.WfsRun.
 Require Import Urcu.Gen.Generated.
+Require Import Urcu.Base.MachD.
+Require Import Urcu.Lfs.Lfs.
+Require Import Urcu.Lfs.LfsProof.
 Import ListNotations.
 Local Open Scope N_scope.
 
 (* wfstack on x86-TSO, any number of pushers and pop_all callers, every schedule of Step/Flush choices: the chain from head spells the ghost stack (order of head exchanges) except at links whose store is still pending in exactly one pusher; pop_all empties it *)
 Theorem C11_wfstack_chain_all_schedules :
-    forall (cs : list choice) (s : st8) (st : list N),
-    Inv s st -> Inv (fst (grun cs (s, st))) (snd (grun cs (s, st))).
+    forall (cs : list MachE.choice) (s : st8) (st : list N),
+    Wfs.Inv s st -> Wfs.Inv (fst (WfsProof.grun cs (s, st))) (snd (WfsProof.grun cs (s, st))).
 Proof. exact (@Urcu.Wfs.WfsProof.wfs_chain_all_schedules). Qed.
 Print Assumptions C11_wfstack_chain_all_schedules.
 
@@ -22,4 +25,28 @@ Theorem C11_wfstack_end_is_source_constant :
     vend = cds_wfs_end.
 Proof. exact (@Urcu.Wfs.WfsRun.vend_is_source_constant). Qed.
 Print Assumptions C11_wfstack_end_is_source_constant.
+
+(* lfstack (push / mutex-protected pop and pop_all / empty, popped nodes pushed again), any number of threads, every schedule: the memory chain from head spells the ghost stack (order of successful head exchanges), every node is in the stack or owned by exactly one thread, poppers are mutually excluded, and a popper's saved next pointer is still its node's successor at the cmpxchg (no ABA) *)
+Theorem C11_lfstack_chain_all_schedules :
+    forall (cs : list choice) (s : st) (stk : list N),
+    Inv s stk -> Inv (fst (grun cs (s, stk))) (snd (grun cs (s, stk))).
+Proof. exact (@Urcu.Lfs.LfsProof.lfs_chain_all_schedules). Qed.
+Print Assumptions C11_lfstack_chain_all_schedules.
+
+(* the initial state of any program that pushes distinct non-null nodes satisfies the invariant *)
+Theorem C11_lfstack_initial_state :
+    forall threads : nat -> list lop,
+    (forall t : nat, NoDup (pushes (threads t)) /\ ~ In 0 (pushes (threads t))) ->
+    (forall (t u : nat) (x : N), t <> u -> In x (pushes (threads t)) -> ~ In x (pushes (threads u))) ->
+    Inv (init_state threads) [].
+Proof. exact (@Urcu.Lfs.LfsProof.Inv_initial). Qed.
+Print Assumptions C11_lfstack_initial_state.
+
+(* a pop whose cmpxchg succeeds removes the top of the ghost stack and leaves the chain of the rest *)
+Theorem C11_lfstack_pop_takes_top :
+    forall (s : st) (stk : list N) (t : nat) (h nx : N),
+    Inv s stk ->
+    lcur (TS s t) = O_Cas h nx -> M s LHead = h -> exists l : list N, stk = h :: l /\ chainm (M s) nx l.
+Proof. exact (@Urcu.Lfs.LfsProof.pop_takes_top). Qed.
+Print Assumptions C11_lfstack_pop_takes_top.
 
